@@ -241,8 +241,50 @@ func scrub(it secs2.Item, gt, loc bool) secs2.Item {
 
 // classify names the failure class of a failed round trip: if removing exactly one known defect
 // class from the message makes the round trip pass, the failure belongs to that class.
+// nesting is the list nesting of an item: 0 for a leaf, 1 + the deepest child for a list.
+func nesting(it secs2.Item) int {
+	if !it.IsList() {
+		return 0
+	}
+	cs, _ := it.ToList()
+	d := 0
+	for _, c := range cs {
+		if n := nesting(c); n > d {
+			d = n
+		}
+	}
+	return d + 1
+}
+
+// flatten rebuilds the tree with every list below level max replaced by an empty binary item, so
+// that the result is nested exactly max deep where the original was deeper.
+func flatten(it secs2.Item, max int) secs2.Item {
+	if !it.IsList() {
+		return it
+	}
+	if max == 0 {
+		return secs2.NewBinaryItem()
+	}
+	cs, _ := it.ToList()
+	out := make([]secs2.Item, len(cs))
+	for i, c := range cs {
+		out[i] = flatten(c, max-1)
+	}
+	return secs2.NewListItem(out...)
+}
+
+const depthCap = 64 // secs2.MaxListDepth, the strict parser's nesting cap since fix 95562b6
+
 func classify(m *hsms.DataMessage, o opts, why string) string {
 	it, _ := m.Item()
+	if nesting(it) > depthCap {
+		// the same message cut down to 64 levels round-trips: the failure is the nesting cap
+		if m2, err := hsms.NewDataMessage(m.Stream(), m.Function(), m.WaitBit(), 0, [4]byte{}, flatten(it, depthCap)); err == nil {
+			if ok, _ := roundTrips(m2, o); ok {
+				return "strict round trip fails for a body nested deeper than 64 lists"
+			}
+		}
+	}
 	try := func(gt, loc bool) bool {
 		m2, err := hsms.NewDataMessage(m.Stream(), m.Function(), m.WaitBit(), 0, [4]byte{}, scrub(it, gt, loc))
 		if err != nil {
@@ -296,7 +338,9 @@ func main() {
 	knownReported := map[string]int{}
 	failGT := func(what, kase string) {
 		class := "ascii-gt"
-		if strings.Contains(what, "strconv.Quote escapes") {
+		if strings.Contains(what, "nested deeper than 64") {
+			class = "depth-cap"
+		} else if strings.Contains(what, "strconv.Quote escapes") {
 			class = "localized-quote"
 			if strings.Contains(what, "containing '>'") {
 				class = "both"
@@ -335,9 +379,9 @@ func main() {
 				o := randOpts(r, true)
 				if ok, why := roundTrips(m, o); !ok {
 					syn, _ := smlcase.Syntax(it)
-					kase := vh.Join("R", o.syntax(), fmt.Sprint(m.Stream()), fmt.Sprint(m.Function()), vh.B01(m.WaitBit()), syn)
+					kase := vh.Join("R", o.syntax(), fmt.Sprintf("depth=%d", nesting(it)), fmt.Sprint(m.Stream()), fmt.Sprint(m.Function()), vh.B01(m.WaitBit()), syn)
 					what := classify(m, o, why) + " (re-encode of accepted text)"
-					if strings.Contains(what, "containing '>'") || strings.Contains(what, "strconv.Quote escapes") {
+					if strings.Contains(what, "containing '>'") || strings.Contains(what, "strconv.Quote escapes") || strings.Contains(what, "nested deeper than 64") {
 						failGT(what, kase)
 					} else {
 						c.Fail(what, kase)
@@ -435,9 +479,9 @@ func main() {
 		}
 		if ok, why := roundTrips(m, o); !ok {
 			syn, _ := smlcase.Syntax(it)
-			kase := vh.Join("R", o.syntax(), fmt.Sprint(m.Stream()), fmt.Sprint(m.Function()), vh.B01(m.WaitBit()), syn)
+			kase := vh.Join("R", o.syntax(), fmt.Sprintf("depth=%d", nesting(it)), fmt.Sprint(m.Stream()), fmt.Sprint(m.Function()), vh.B01(m.WaitBit()), syn)
 			what := classify(m, o, why)
-			if strings.Contains(what, "containing '>'") || strings.Contains(what, "strconv.Quote escapes") {
+			if strings.Contains(what, "containing '>'") || strings.Contains(what, "strconv.Quote escapes") || strings.Contains(what, "nested deeper than 64") {
 				failGT(what, kase)
 			} else {
 				c.Fail(what, kase)
@@ -498,7 +542,7 @@ func main() {
 			sized = append(sized, secs2.NewListItem(kids...), secs2.NewJIS8Item(strings.Repeat("k", n)), secs2.NewUTF8StrItem(strings.Repeat("w", n)))
 		}
 	}
-	for _, depth := range []int{1, 2, 9, 10, 33, 64, 65, 100} {
+	for _, depth := range []int{1, 2, 9, 10, 33, 63, 64, 65, 66, 100} { // 65+ reproduce finding C13-depth-cap on every run
 		var it secs2.Item = secs2.NewBooleanItem(true)
 		for i := 0; i < depth; i++ {
 			it = secs2.NewListItem(it, secs2.NewASCIIItem("d"))
